@@ -55,6 +55,7 @@ impl Model {
 
         self.meta
             .global_ventilation_l_s
+            .filter(|_| vol_env_inh_net > 0.0)
             .map(|n_v_g| 3.6 * n_v_g / vol_env_inh_net)
             .unwrap_or_default()
     }
